@@ -210,6 +210,9 @@ type BlockObs struct {
 	ProposerID    int64       `json:"-"`
 	ProposerRole  uint8       `json:"-"`
 	HeadMovedDiff string      `json:"-"`
+	TamperAccepted []string   `json:"-"`
+	TamperRejected int        `json:"-"`
+	Submitted      int        `json:"-"`
 }
 
 // ---- plumbing -----------------------------------------------------------------
@@ -775,6 +778,10 @@ func (w *World) buildBlock(b *BlockIn) (blk *types.Block, o *BlockObs) {
 		for i := range b.Evs {
 			ev, eo := w.makeEvidence(&b.Evs[i])
 			staking.VerifAddEvidenceC06(w.A.stk, ev)
+			// evidences are gossiped: the importing nodes hold them in their pools too
+			// (nothing on the import path may look at that pool)
+			staking.VerifAddEvidenceC06(w.B.stk, ev)
+			staking.VerifAddEvidenceC06(w.C.stk, ev)
 			_ = eo
 		}
 	}
@@ -784,6 +791,7 @@ func (w *World) buildBlock(b *BlockIn) (blk *types.Block, o *BlockObs) {
 	pool := core.NewTxPool(cfg, w.A.bc)
 	defer pool.Stop()
 	w.be.pool = pool
+	o.Submitted = len(b.Txs)
 	for i := range b.Txs {
 		tx := w.buildTx(pool.Nonce, &b.Txs[i])
 		errs := pool.AddRemotesSync([]*types.Transaction{tx})
@@ -972,7 +980,7 @@ func (w *World) runWith(reps int, produce func(i int) (*types.Block, *BlockObs))
 		for i, o := range pendingObs {
 			o.Imported = w.B.bc.HasBlockAndState(pending[i].Hash(), pending[i].NumberU64()) &&
 				w.B.bc.GetBlockByNumber(pending[i].NumberU64()) != nil && w.B.bc.GetBlockByNumber(pending[i].NumberU64()).Hash() == pending[i].Hash()
-			if err != nil {
+			if err != nil && !o.Imported { // the batch's error belongs to its first block that did not get in
 				o.ImportErr = err.Error()
 			}
 			if o.Imported {
@@ -1005,6 +1013,9 @@ func (w *World) runWith(reps int, produce func(i int) (*types.Block, *BlockObs))
 			if k == 0 {
 				o.Before, o.After = w.pr.before, w.pr.after
 			}
+		}
+		if len(o.ReexecDiff) == 0 {
+			w.tamper(blk, o)
 		}
 		if err := w.C.bc.InsertChain(types.Blocks{blk}); err != nil {
 			o.ReexecDiff = append(o.ReexecDiff, "node C import: "+err.Error())
@@ -1074,4 +1085,36 @@ func runPlain(h *History, reps int) []*BlockObs {
 	})
 	w.headMoved(obs)
 	return obs
+}
+
+// tamper: the validator side of the agreement - a block whose header
+// commitment differs from what its own execution yields must be refused by
+// Process + ValidateState.  One commitment per block (chosen by the block
+// number) is altered; Subsidy is not covered (nothing compares it).
+func (w *World) tamper(blk *types.Block, o *BlockObs) {
+	fields := []string{"root", "val_root", "staking_root", "receipt_hash", "bloom", "gas_used", "gas_rewards"}
+	f := fields[int(blk.NumberU64())%len(fields)]
+	h := blk.Header()
+	switch f {
+	case "root":
+		h.Root[7] ^= 1
+	case "val_root":
+		h.ValRoot[7] ^= 1
+	case "staking_root":
+		h.StakingRoot[7] ^= 1
+	case "receipt_hash":
+		h.ReceiptHash[7] ^= 1
+	case "bloom":
+		h.Bloom[3] ^= 0x10
+	case "gas_used":
+		h.GasUsed++
+	case "gas_rewards":
+		h.GasRewards = new(big.Int).Add(h.GasRewards, big.NewInt(1))
+	}
+	diff, _ := w.reexec(w.C, blk.WithSeal(h), false, false)
+	if len(diff) == 0 {
+		o.TamperAccepted = append(o.TamperAccepted, f)
+	} else {
+		o.TamperRejected++
+	}
 }
